@@ -265,6 +265,7 @@ TARGETS = {
     "comp": ["targets/comp.cpp"],
     "obj": ["targets/obj.cpp"],
     "thr": ["targets/thr.cpp"],
+    "cont": ["targets/cont.cpp"],
 }
 
 
